@@ -9,6 +9,7 @@ import (
 	"path/filepath"
 	"regexp"
 	"runtime/debug"
+	"runtime/pprof"
 	"sort"
 	"strconv"
 	"strings"
@@ -43,6 +44,7 @@ type ViolOut struct {
 }
 
 type SampleOut struct {
+	Decs string `json:"decs,omitempty"`
 	Nondet []NondetOut `json:"nondet"`
 	Emits  []EmitOut   `json:"emits"`
 	Sched  []int       `json:"sched,omitempty"`
@@ -68,6 +70,7 @@ type EntryResult struct {
 	Samples     []SampleOut    `json:"samples"`
 	Bounds      map[string]int `json:"bounds"`
 	RedirectsUsed []string     `json:"redirects"`
+	EmitHist    map[string]int `json:"emit_hist,omitempty"`
 }
 
 func main() {
@@ -99,7 +102,13 @@ func cmdRun(args []string) int {
 	samples := fs.Int("samples", 3, "witness samples of completed paths per entry")
 	maxTime := fs.Int("maxtime", 900, "max seconds per entry")
 	verbose := fs.Bool("v", false, "verbose")
+	cpuprof := fs.String("cpuprofile", "", "write cpu profile")
 	fs.Parse(args)
+	if *cpuprof != "" {
+		f, _ := os.Create(*cpuprof)
+		pprof.StartCPUProfile(f)
+		defer pprof.StopCPUProfile()
+	}
 
 	t0 := time.Now()
 	os.Setenv("PATH", "/opt/veriftools/go1.26.8/bin:"+os.Getenv("PATH"))
@@ -250,7 +259,7 @@ func parseDirectives(cg *ast.CommentGroup) [][2]string {
 }
 
 func defaultConfig() Config {
-	return Config{MaxSteps: 2000000, MaxVisits: 64, MaxBytes: 64, MaxSchedOps: 2000, AllocA: 64, AllocB: 256*1024 + 4096, OpaqueMax: 3, CheckLeaks: true}
+	return Config{MaxSteps: 2000000, MaxVisits: 64, MaxBytes: 64, MaxSchedOps: 2000, AllocA: 64, AllocB: 256*1024 + 4096, OpaqueMax: 3, CheckLeaks: true, Preempt: -1}
 }
 
 func findEntries(l *loaded, re string, tier string) ([]*EntrySpec, error) {
@@ -349,6 +358,12 @@ func findEntries(l *loaded, re string, tier string) ([]*EntrySpec, error) {
 					e.Cfg.AllocB, _ = strconv.ParseInt(fields[1], 10, 64)
 				case "atomic-invisible":
 					e.Cfg.AtomicInvisible = true
+				case "preempt":
+					// preempt <quick> [<thorough>]
+					e.Cfg.Preempt, _ = strconv.Atoi(fields[0])
+					if len(fields) > 1 && tier == "thorough" {
+						e.Cfg.Preempt, _ = strconv.Atoi(fields[1])
+					}
 				case "noifconv":
 					e.Cfg.NoIfConv = true
 				case "nopor":
@@ -419,7 +434,7 @@ func runEntry(l *loaded, e *EntrySpec, pl *pool, maxPaths, nsamples int, outDir 
 		P.redirects[k] = v
 	}
 	res := &EntryResult{Name: e.Name, Inconcl: map[string]int{}, Funcs: map[string]int{}, Bounds: map[string]int{
-		"max_bytes": e.Cfg.MaxBytes, "unwind": e.Cfg.MaxVisits, "max_steps": e.Cfg.MaxSteps, "opaque_string_max": e.Cfg.OpaqueMax, "max_sched_ops": e.Cfg.MaxSchedOps}}
+		"max_bytes": e.Cfg.MaxBytes, "unwind": e.Cfg.MaxVisits, "max_steps": e.Cfg.MaxSteps, "opaque_string_max": e.Cfg.OpaqueMax, "max_sched_ops": e.Cfg.MaxSchedOps, "max_preemptions": e.Cfg.Preempt}}
 	for k := range P.redirects {
 		res.RedirectsUsed = append(res.RedirectsUsed, k+" -> "+P.redirects[k])
 	}
@@ -478,8 +493,18 @@ func runEntry(l *loaded, e *EntrySpec, pl *pool, maxPaths, nsamples int, outDir 
 				switch pr.Status {
 				case "ok":
 					res.PathsOK++
+					if os.Getenv("GOSMT_EMITHIST") != "" {
+						if res.EmitHist == nil {
+							res.EmitHist = map[string]int{}
+						}
+						k := ""
+						for _, e := range pr.Emits {
+							k += e.Label + "=" + e.Val + ";"
+						}
+						res.EmitHist[k]++
+					}
 					if len(res.Samples) < nsamples && pr.Nondet != nil {
-						res.Samples = append(res.Samples, SampleOut{Nondet: pr.Nondet, Emits: pr.Emits, Sched: pr.Sched})
+						res.Samples = append(res.Samples, SampleOut{Nondet: pr.Nondet, Emits: pr.Emits, Sched: pr.Sched, Decs: pr.Decs})
 					}
 				case "pruned":
 					res.Pruned++
@@ -601,6 +626,13 @@ func runPath(P *Program, cfg *Config, sv *Solver, item WorkItem, entry *ssa.Func
 		pr.Violations = in.viols
 		pr.Steps = in.steps
 		pr.Decisions = len(in.taken)
+		for _, d := range in.taken {
+			pr.Decs += fmt.Sprintf("%c%d", d.Kind, d.Pick)
+			if d.Kind == 's' {
+				pr.Decs += fmt.Sprintf("[z%d]", len(d.SleepSet))
+			}
+			pr.Decs += " "
+		}
 		pr.NewItems = in.newWork
 		pr.Reached = in.reached
 		pr.Funcs = in.funcs
@@ -630,6 +662,9 @@ func runPath(P *Program, cfg *Config, sv *Solver, item WorkItem, entry *ssa.Func
 		in.runAll()
 	}
 	th.done = false
+	if os.Getenv("GOSMT_INITSTATS") != "" {
+		fmt.Fprintf(os.Stderr, "init steps=%d funcs=%v\n", in.steps, in.funcs)
+	}
 	in.steps = 0
 	for k := range in.funcs {
 		delete(in.funcs, k)
